@@ -276,14 +276,18 @@ theorem step_inv {s s' : State} {e : Ev} (hi : Inv s) (h : step s e = .ok s') : 
   | cas t exp new ord =>
     simp only [step] at h
     split at h
-    · exact applyWrite_inv hi h
+    · split at h
+      · cases h
+      · exact applyWrite_inv hi h
     · cases h
   | st t new ord =>
     simp only [step] at h
     split at h
     · split at h
-      · exact applyWrite_inv hi h
       · cases h
+      · split at h
+        · exact applyWrite_inv hi h
+        · cases h
     · cases h
   | call t c =>
     simp only [step] at h
@@ -323,6 +327,9 @@ theorem step_inv {s s' : State} {e : Ev} (hi : Inv s) (h : step s e = .ok s') : 
             · cases hv
             · exact hi.heldR u hv
         · cases h
+      | observe =>
+        simp only at h
+        cases h; exact inv_ghost hi _ _ _ hi.heldW hi.heldR hi.annW hi.annR
   | ret t ok =>
     simp only [step] at h
     split at h
@@ -368,8 +375,13 @@ theorem step_inv {s s' : State} {e : Ev} (hi : Inv s) (h : step s e = .ok s') : 
           · subst hut; rw [hv] at hsh; exact shareOf_R hsh.1
           · exact hi.heldR u hv
       · cases h
+    · split at h
+      · cases h; exact inv_ghost hi _ _ _ hi.heldW hi.heldR hi.annW hi.annR
+      · cases h
   | annAcq t l =>
     simp only [step] at h
+    split at h
+    · cases h
     split at h
     · rename_i hsh
       cases h
@@ -391,6 +403,8 @@ theorem step_inv {s s' : State} {e : Ev} (hi : Inv s) (h : step s e = .ok s') : 
     · cases h
   | annRel t l =>
     simp only [step] at h
+    split at h
+    · cases h
     split at h
     · cases h
       refine inv_ghost hi _ _ _ hi.heldW hi.heldR ?_ ?_
